@@ -222,6 +222,59 @@ pub fn run(run: &mut Run) {
         env.hosts.remove("id");
     }
 
+    // ---- neighbouring elements that are equal but distinguishable (1, 1u, 1.0; 0.0, -0.0; [3],
+    //      [3.0]): every element itself is bound, and results keep each element's own type
+    run.sub("twin-elements");
+    {
+        let elems: Vec<MV> = vec![MV::Int(1), MV::Uint(1), MV::f(1.0), MV::Int(2), MV::f(0.0), MV::f(-0.0), MV::List(vec![MV::Int(3)]), MV::List(vec![MV::f(3.0)])];
+        let mut lists: Vec<Vec<usize>> = vec![vec![]];
+        let mut last: Vec<Vec<usize>> = vec![vec![]];
+        for _ in 0..3 {
+            let mut next = vec![];
+            for l in &last {
+                for a in 0..elems.len() {
+                    let mut n = l.clone();
+                    n.push(a);
+                    next.push(n);
+                }
+            }
+            lists.extend(next.iter().cloned());
+            last = next;
+        }
+        let int = |v: i64| E::Lit(MV::Int(v));
+        // (predicate, transform) pairs that depend on the element's type, not only on its numeric value
+        let bodies: Vec<(E, E)> = vec![
+            (E::Bin(">", b(E::Bin("/", b(x()), b(E::Bin("+", b(x()), b(x()))))), b(int(0))), x()),
+            (E::Bin("==", b(call("string", vec![x()])), b(E::Lit(MV::s("1")))), call("string", vec![x()])),
+            (E::Bin(">", b(E::Bin("+", b(x()), b(int(1)))), b(int(0))), E::Bin("+", b(x()), b(int(1)))),
+            (E::Bin("==", b(x()), b(x())), E::List(vec![x(), x()])),
+        ];
+        for form in FORMS.iter() {
+            for (pred_b, tr_b) in bodies.iter() {
+                for l in lists.iter() {
+                    for lit_range in [false, true] {
+                        if !run.take() {
+                            continue;
+                        }
+                        let lv = MV::List(l.iter().map(|k| elems[*k].clone()).collect());
+                        let range = if lit_range { E::Lit(lv.clone()) } else { E::Var("l".into()) };
+                        let e = macro_expr(*form, range, "x", pred_b.clone(), tr_b.clone());
+                        let mut ctx = base_ctx.new_inner_scope();
+                        ctx.add_variable_from_value("l", lv.to_value());
+                        log.lock().unwrap().clear();
+                        let got = subj::run_src(&e.src(), &ctx);
+                        run.trans(2);
+                        let got_log = log.lock().unwrap().clone();
+                        env.frames.truncate(1);
+                        env.set("l", lv.clone());
+                        judge(run, "twins", &format!("{}{}", form.0, form.1), &e, &format!("`{}` with l={}", e.src(), lv.show()), &mut env, &got, &got_log);
+                    }
+                }
+            }
+        }
+        env.frames.truncate(1);
+    }
+
     // ---- maps: the macro ranges over the keys; iteration order is read from the same map value
     run.sub("maps");
     let order_prog = Program::compile("m.map(k, k)").unwrap();
